@@ -7,7 +7,8 @@
 (* receives the data of the opening directive).  TLC has no character-level string operations, so     *)
 (* tokens are typed records and turning a document into text (quoting style, escapes, whitespace,      *)
 (* comment and blank lines) is the harness renderer's job, several renderings per document.            *)
-(* Unregistered *sections* under QAC_IGNOREUNKNOWN are outside the generated documents (undocumented). *)
+(* Unregistered sections under QAC_IGNOREUNKNOWN are entered like registered ones (see `last` below);  *)
+(* together with a default handler they are outside the generated documents (undocumented).            *)
 EXTENDS Integers, Sequences, TLC, Json, IOUtils, SequencesExt
 CONSTANT PinnedBool      \* TRUE would model the pinned defect (every false spelling rejected); checks use FALSE
 \* option table: take = -1 means TAKEALL; ts: per-argument types for the leading positions ("" = use default; only
@@ -47,7 +48,12 @@ CheckArgs(o, args) ==
                  THEN (IF BoolVal(args[j].kind) = 1 THEN "1" ELSE "0") ELSE args[j].txt
   IN <<(o.take = -1 \/ o.take = n) /\ \A j \in 1..n : okj(j), [j \in 1..n |-> norm(j)]>>
 \* parser state
-S0 == [stack |-> <<>>, cbs |-> <<>>, count |-> 0, err |-> 0, ln |-> 0]
+\* `last`: per nesting level, the section id of the registered section opened last at that level (0 at the start of a level).
+\* The code keeps it in a local variable that an unregistered section does not update, so an ignored unregistered section is
+\* entered with that left-over id as its own (0 when no registered section was opened before it at that level): inside it,
+\* options restricted to particular sections are refused unless the left-over id admits them.  Modelled as the code behaves.
+S0 == [stack |-> <<>>, cbs |-> <<>>, count |-> 0, err |-> 0, ln |-> 0, last |-> 0]
+Pop(st) == [st EXCEPT !.last = st.stack[Len(st.stack)].outerlast, !.stack = SubSeq(@, 1, Len(@) - 1)]
 CurSec(st) == IF st.stack = <<>> THEN 1 ELSE st.stack[Len(st.stack)].sid
 CurSecs(st) == IF st.stack = <<>> THEN 1 ELSE st.stack[Len(st.stack)].childsecs
 Parents(st) == [i \in 1..Len(st.stack) |-> st.stack[Len(st.stack) + 1 - i].shown]
@@ -66,15 +72,22 @@ StepLine(st, line, ci, ignore, defh) ==
                                            parents |-> Parents(st), h |-> "def", ud |-> TRUE]),
                        !.count = @ + 1, !.ln = @ + 1]
        ELSE IF ~found THEN
-            IF ignore THEN [st EXCEPT !.count = @ + 1, !.ln = @ + 1,
-                                      !.stack = IF line.t = "close" THEN SubSeq(@, 1, Len(@) - 1) ELSE @]
+            IF ignore THEN
+                 IF line.t = "close" THEN [Pop(st) EXCEPT !.count = @ + 1, !.ln = @ + 1]
+                 ELSE IF line.t = "open" THEN
+                      \* an ignored unregistered section is entered all the same (no callback), under the left-over section id
+                      [st EXCEPT !.count = @ + 1, !.ln = @ + 1, !.last = 0,
+                                 !.stack = Append(@, [name |-> line.name, alt |-> line.alt, shown |-> line.shown, sid |-> st.last,
+                                                      childsecs |-> BitOr(CurSecs(st), st.last), section |-> CurSec(st),
+                                                      sections |-> CurSecs(st), args |-> <<>>, outerlast |-> st.last])]
+                 ELSE [st EXCEPT !.count = @ + 1, !.ln = @ + 1]
             ELSE Fail(st)
        ELSE LET o == Table[line.name] IN
             IF line.t = "close" THEN
-               [st EXCEPT !.cbs = Append(@, [otype |-> 2, shown |-> top.shown, section |-> top.section, sections |-> top.sections,
+               [Pop(st) EXCEPT !.cbs = Append(@, [otype |-> 2, shown |-> top.shown, section |-> top.section, sections |-> top.sections,
                                               level |-> Len(st.stack) - 1, args |-> top.args, parents |-> Tail(Parents(st)),
                                               h |-> "cb", ud |-> TRUE]),
-                          !.stack = SubSeq(@, 1, Len(@) - 1), !.count = @ + 1, !.ln = @ + 1]
+                          !.count = @ + 1, !.ln = @ + 1]
             ELSE IF o.secs # 0 /\ BitAnd(o.secs, CurSec(st)) = 0 THEN Fail(st)
             ELSE LET ca == CheckArgs(o, line.args) IN
                  IF ~ca[1] THEN Fail(st)
@@ -86,10 +99,11 @@ StepLine(st, line, ci, ignore, defh) ==
                          THEN [Fail(st) EXCEPT !.cbs = Append(@, cb)]        \* the callback ran, then its error message stops the parse
                          ELSE
                          [st EXCEPT !.cbs = IF called THEN Append(@, cb) ELSE @, !.count = @ + 1, !.ln = @ + 1,
+                                    !.last = IF line.t = "open" THEN 0 ELSE @,
                                     !.stack = IF line.t = "open"
                                               THEN Append(@, [name |-> line.name, alt |-> line.alt, shown |-> line.shown, sid |-> o.sid,
                                                               childsecs |-> BitOr(CurSecs(st), o.sid), section |-> CurSec(st),
-                                                              sections |-> CurSecs(st), args |-> ca[2]])
+                                                              sections |-> CurSecs(st), args |-> ca[2], outerlast |-> o.sid])
                                               ELSE @]
 Expect(doc) ==
   LET fin == FoldLeft(LAMBDA st, line : StepLine(st, line, doc.ci, doc.ignore, doc.defh), S0, doc.lines)
